@@ -117,7 +117,7 @@ def _worker(items, base):
         # values whose encoding does not fit an AVM byte string (4096) cannot be observed: outside the alphabet
         vals = [v for v in abi_gen.values(shape, cap=_CAP, rich=_RICH) if len(abi_gen.encode(shape, v)) <= 4000]
         for v in vals:
-            for mode in (("lit", "expr") if isinstance(shape, str) else ("lit", "expr", "lit-shared")):
+            for mode in (("lit", "expr", "lit-sub") if isinstance(shape, str) else ("lit", "expr", "lit-shared", "lit-sub")):
                 for backend in ("main", "sub"):
                     for ver in _VERSIONS:
                         why, text = run_case(shape, v, mode, backend, ver, out)
